@@ -17,7 +17,7 @@ import (
 
 const header = "From VF Require Import Common.Base Common.Hist C04.Spec C04.Model C04.ProofsRange C04.Check.\nLocal Open Scope Z_scope."
 
-const rule = "sequential case = one operation trace on a fresh skipmap/skipset (eleven key-type/comparator variants (one with a slow, yielding a-b comparator that widens the optimistic windows in concurrent rounds) incl. the mutex wrappers: built-in -1/0/+1 comparators on int64/string/int-reversed/struct and user comparators returning magnitudes -- a-b, b-a, (a-b)*7, struct-field subtraction -- on key encodings with gaps 1,1,5 / 2,4,6,.. / 3; cases carry the keys' ranks under the comparator; random profiles, every word of length 3 over a two-key alphabet (thorough: length 3 over three keys, length 4 over one key / two elements), and the deterministic generator \"clear-tall\": six traces per variant with Clear (after low inserts, as the first operation, twice in a row, again after tall inserts) followed by fresh keys at node levels 5..16,16 through every insert flavour, each looked up at once, then removals and Range/Keys/Len), every step carrying the result and the lane/level/highestLevel/length dump; a panic of the code under test is the result RPanic of that step and ends the trace; a dump the verif accessor cannot take is recorded as an unreadable shape (model mismatch); non-trivial = inserts at least one key. concurrent case = one round on a fresh structure: 2-8 goroutines x 4-8 operations on 1-3 keys (+ optional Range goroutine), GOMAXPROCS cycling 1/2/4/16, seeded Gosched/spin between operations, busy co-runners; stamps from one atomic counter (invocation before the call, response after); quiescent Len/Keys/Values/Empty appended as the last operations; non-trivial = two operations of different goroutines overlap.  lazy case = one round on a map pre-filled with 24-300 even keys: 2-5 goroutines call LoadOrStoreLazy on odd (fresh, adjacent) keys of a 3-10 key window while 2-5 others Delete/Store/LoadAndDelete/LoadOrStore the neighbouring keys, 20-60 operations each; every LoadOrStoreLazy call carries a closure counter and is judged per call (no search); non-trivial = at least one call stored. distinct = distinct case terms."
+const rule = "sequential case = one operation trace on a fresh skipmap/skipset (eleven key-type/comparator variants (one with a slow, yielding a-b comparator that widens the optimistic windows in concurrent rounds) incl. the mutex wrappers: built-in -1/0/+1 comparators on int64/string/int-reversed/struct and user comparators returning magnitudes -- a-b, b-a, (a-b)*7, struct-field subtraction -- on key encodings with gaps 1,1,5 / 2,4,6,.. / 3; cases carry the keys' ranks under the comparator; random profiles, every word of length 3 over a two-key alphabet (thorough: length 3 over three keys, length 4 over one key / two elements), and the deterministic generator \"clear-tall\": six traces per variant with Clear (after low inserts, as the first operation, twice in a row, again after tall inserts) followed by fresh keys at node levels 5..16,16 through every insert flavour, each looked up at once, then removals and Range/Keys/Len), every step carrying the result and the lane/level/highestLevel/length dump; a panic of the code under test is the result RPanic of that step and ends the trace; a dump the verif accessor cannot take is recorded as an unreadable shape (model mismatch); non-trivial = inserts at least one key. concurrent case = one round on a fresh structure: 2-8 goroutines x 4-8 operations on 1-3 keys (+ optional Range goroutine), GOMAXPROCS cycling 1/2/4/16, seeded Gosched/spin between operations, busy co-runners; stamps from one atomic counter (invocation before the call, response after); quiescent Len/Keys/Values/Empty appended as the last operations; non-trivial = two operations of different goroutines overlap.  lazy case = one round on a map pre-filled with 24-300 even keys: 2-5 goroutines call LoadOrStoreLazy on odd (fresh, adjacent) keys of a 3-10 key window while 2-5 others Delete/Store/LoadAndDelete/LoadOrStore the neighbouring keys, 20-60 operations each; every LoadOrStoreLazy call carries a closure counter and is judged per call (no search); non-trivial = at least one call stored.  scripted case = one schedule driven through the add-only yield points (VerifYieldHook): an operation is parked inside a protocol window (marked/not unlinked, validated/not linked, linked/not fullyLinked, randomLevel between load and CAS with forced levels, reader or updater on a found node) while the other operations run against it; 10 map and 8 set scenarios x 4 comparator variants, judged by lin_check/range_ok_b; non-trivial = every yield point of the script was reached. distinct = distinct case terms."
 
 func main() {
 	o := vhlib.ParseOpts()
@@ -35,16 +35,17 @@ func main() {
 	if !raceRun {
 		seqSection(w, o, rng.Fork())
 	}
-	rounds := 1000
+	rounds := 800
 	if o.Thorough() {
 		rounds = 4000
 	}
 	if raceRun {
-		rounds = 400
+		rounds = 300
 		if o.Thorough() {
 			rounds = 3000
 		}
 	}
+	scriptSection(w, o)
 	concSection(w, o, rng.Fork(), rounds, raceRun)
 	lazyRounds := 150
 	if o.Thorough() {
